@@ -246,8 +246,7 @@ def run_case(case, ctx, sdir):
                     rec.evaluation()
                     witness = dict(case, subclassing=[subc], formats=[fmt], entries=[entry])
                     path = os.path.join(sdir, "c10" + EXT[fmt])
-                    if os.path.exists(path):
-                        os.remove(path)
+                    # (the file of an earlier case - longer or shorter - stays in place: exports overwrite)
                     try:
                         if entry == "string":
                             text = RDFWriter(list(docs), **kw).get_rdf_str(fmt)
